@@ -77,6 +77,18 @@ Theorem C19_ti_coeff_taylor_from_conditions :
 Proof. exact ti_coeff_taylor_from_conditions. Qed.
 Print Assumptions C19_ti_coeff_taylor_from_conditions.
 
+(* rooted trees are unordered: for every tableau matrix, weight row and trees u v w, grafting v then w
+   onto u gives the same order and the same order-condition left-hand side as grafting w then v
+   (unbounded; no reference to the shipped tables), so quantifying over Butcher-product terms [bt] is
+   quantifying over rooted trees, and the 23 product terms of order <= 5 cover the 17 rooted trees *)
+Theorem C19_child_order_irrelevant :
+  forall a b u v w,
+    order (Gr (Gr u v) w) = order (Gr (Gr u w) v) /\
+    (dotq b (Phi a (Gr (Gr u v) w)) * gamma (Gr (Gr u v) w) ==
+     dotq b (Phi a (Gr (Gr u w) v)) * gamma (Gr (Gr u w) v))%Q.
+Proof. exact (fun a b u v w => conj (order_graft_swap u v w) (cond_graft_swap a b u v w)). Qed.
+Print Assumptions C19_child_order_irrelevant.
+
 (* non-vacuity: ten methods, 23 tree shapes up to order five *)
 Example C19_nonvacuous : length methods = 10 /\ length (all_upto 5) = 23.
 Proof. vm_compute. split; reflexivity. Qed.
